@@ -145,3 +145,37 @@ func (s *Scheduler) Trace() []string {
 	defer s.mu.Unlock()
 	return append([]string(nil), s.trace...)
 }
+
+// Segment is one stretch of a scheduling plan: grant Actor up to Steps turns (Steps < 0: until
+// it finishes).
+type Segment struct {
+	Actor string
+	Steps int
+}
+
+// PlanChooser returns a chooser that follows the plan segment by segment; a segment whose
+// actor is not enabled (finished or never started) is skipped. When the plan is exhausted the
+// remaining actors run to completion in registration order. It makes bounded-preemption
+// enumeration deterministic: "A runs k calls, then B runs to completion, then A finishes".
+func PlanChooser(plan []Segment) func(enabled, verbs []string) int {
+	i, used := 0, 0
+	return func(enabled, _ []string) int {
+		for i < len(plan) {
+			seg := plan[i]
+			idx := -1
+			for k, a := range enabled {
+				if a == seg.Actor {
+					idx = k
+				}
+			}
+			if idx < 0 || (seg.Steps >= 0 && used >= seg.Steps) {
+				i++
+				used = 0
+				continue
+			}
+			used++
+			return idx
+		}
+		return 0
+	}
+}
